@@ -43,7 +43,8 @@ FUNCTIONS = {
            + LAYER_FNS[2:] + [(L, 'runner.handle_layer_failure')],     # the final tear-down and verdict on every path
     'C19': [(RR, TR + 'startTest'), (RR, TR + 'addSkip'), (RR, TR + 'stopTest'), ('threads_c19', 'threadsupport.enumerate')],
     'C17': [('formatter_c17', 'formatter.XMLOutputFormattingWrapper._record'), ('formatter_c17', 'formatter.parse_unittest'),
-            ('formatter_c17', 'formatter.TestSuiteInfo.tests')],
+            ('formatter_c17', 'formatter.TestSuiteInfo.tests'),
+            ('formatter_c17', 'formatter.XMLOutputFormattingWrapper.writeXMLReports')],
     'C18': [('features_c18', f) for f in (
         'garbagecollection.Threshold.global_setup', 'garbagecollection.Threshold.global_teardown',
         'garbagecollection.Debug.global_setup', 'garbagecollection.Debug.global_teardown',
